@@ -14,7 +14,19 @@
 
 #define COPY_VALUE_FROM_ARG(TARGET, ARG, STATUS)                        \
   if (PyFloat_Check(ARG)) TARGET = (float)PyFloat_AsDouble(ARG);        \
-  else if (PyLong_Check(ARG)) TARGET = (float)PyLong_AsLong(ARG);       \
+  else if (PyLong_Check(ARG)) {                                         \
+      /* not PyLong_AsLong():  its error return was never checked, so  \
+         an int beyond C long stored -1.0 and left the exception set */ \
+      double dcopy = PyLong_AsDouble(ARG);                              \
+      if (dcopy == -1.0 && PyErr_Occurred()) {                          \
+        if (PyErr_ExceptionMatches(PyExc_OverflowError)) {              \
+            PyErr_Clear();                                              \
+            PyErr_SetString(PyExc_TypeError, "integer out of range");   \
+        }                                                               \
+        (STATUS)=0; (TARGET)=0;                                         \
+      }                                                                 \
+      else TARGET = (float)dcopy;                                       \
+  }                                                                     \
   else {                                                                \
       PyErr_SetString(PyExc_TypeError, "expected float or int value");  \
       (STATUS)=0; (TARGET)=0; }
